@@ -497,6 +497,13 @@ def D53():
     slp = eao.stoch_lin_prog.make_slp(deepcopy(ops[0]), portf, tg, dt.datetime(2021, 1, 1, 12), [sc[1]])
     return 'per-scenario optima %s (mean %.0f), SLP optimum %.0f' % (np.round(vals, 0), np.mean(vals), slp.optimize().value)
 
+@witness
+def D54():
+    tg = A.Timegrid(dt.date(2021, 1, 1), dt.date(2021, 1, 22), freq='d')
+    a = A.SimpleContract(name='sc', nodes=N1, price='price', min_cap=-1., max_cap=1., periodicity='W')
+    m = a.setup_optim_problem({'price': np.ones(tg.T)}, timegrid=tg).mapping
+    return "grid starting on a Friday, periodicity 'W': variable 0 stands for %s" % [tg.timepoints[t].strftime('%a') for t in m.loc[[0], 'time_step']]
+
 if __name__ == '__main__':
     which = sys.argv[1:] or list(W)
     for k in which:
